@@ -26,6 +26,9 @@ func c08Gen(rt *rapid.T) wProg {
 	p.Sess = append([]int(nil), gPick(rt, [][]int{{0, 1, 2}, {0, 0, 1, 2}, {0, 1, 1, 2}, {0, 1, 2, 3}}, "layout")...)
 	gGrpc(rt, &p, 15)
 	gLat(rt, &p, 25)
+	if gPct(rt, 30) {
+		p.Cfg.Vmail = gPick(rt, []int{1, 2, 3, 3, 3}, "vmail")
+	}
 	isChan := gPct(rt, 30)
 	kind := "new"
 	if isChan {
@@ -149,6 +152,19 @@ func c08Gen(rt *rapid.T) wProg {
 			p.Ops = append(p.Ops, wOp{K: "set", S: 0, T: "g0", A: "given", U: gInt(rt, 1, 2, "heir"), B: gPick(rt, []string{"JRWPASDO", "JRWPSO"}, "grant")},
 				wOp{K: gPick(rt, []string{"reload", "restart"}, "how"), T: "g0"})
 			p.Ops = append(p.Ops, wOp{K: "get", S: 0, T: "g0", A: "tags"}, wOp{K: "set", S: 0, T: "g0", A: "tags", X: []string{"alpha"}})
+		case x < 10 && p.Cfg.Vmail > 0 && gPct(rt, 60):
+			// an address is put up for validation, confirmed (it becomes a tag), then removed again, all while 'me' is loaded
+			s := gInt(rt, 0, len(p.Sess)-1, "s")
+			val := fmt.Sprintf("c8s%d@%s", s, wValidatorDomain)
+			cred := func(m map[string]any) string {
+				return wJSON(map[string]any{"set": map[string]any{"id": "$id", "topic": "me", "cred": m}})
+			}
+			p.Ops = append(p.Ops, wOp{K: "sub", S: s, T: "me"}, wOp{K: "set", S: s, T: "me", A: "tags", X: gPick(rt, [][]string{{"alpha"}, {"alpha", "beta"}, {}}, "mtags")},
+				wOp{K: "raw", S: s, A: cred(map[string]any{"meth": wValidatorName, "val": val})},
+				wOp{K: "raw", S: s, A: cred(map[string]any{"meth": wValidatorName, "resp": gPick(rt, []string{wValidatorCode, wValidatorCode, "000000"}, "resp8")})},
+				wOp{K: "get", S: s, T: "me", A: "tags"},
+				wOp{K: "raw", S: s, A: wJSON(map[string]any{"del": map[string]any{"id": "$id", "topic": "me", "what": "cred", "cred": map[string]any{"meth": wValidatorName, "val": val}}})},
+				wOp{K: "get", S: s, T: "me", A: "tags"})
 		case x < 10:
 			// a store failure in the middle of a request which makes two writes
 			s := gInt(rt, 0, len(p.Sess)-1, "s")
